@@ -34,6 +34,7 @@ KINDS = {
     34: 'CommitPacket is not sha256 of ABIPack',
     35: 'the value decoded from an accepted input is not stable under re-encoding and decoding',
     36: 'a chain-name validator accepts a name containing the separator "/" (or the empty name): the key theorems\' hypothesis fails',
+    37: 'the bytes emitted by the packet contract (packet, or the transfer / call data inside) are not reproduced by decoding and re-encoding',
     41: 'two different argument tuples of one key builder give the same key',
     42: 'keys of two different families of the xibc store collide',
     43: 'a written consensus state is not read back by IterateConsensusStates (or something else is)',
@@ -183,6 +184,16 @@ def case_term(r):
                    cl_items(ob.get('commitments'), triple), cl_items(ob.get('acks'), triple), cl_items(ob.get('receipts'), triple),
                    cl_items(ob.get('nextseq'), triple), nat(rel.get('class', 0)), nat(rel.get('n', 0))))
         return '(CIter %s %s)' % (spec, obs)
+    if k == 'contract':
+        if ob.get('class') != 0:
+            # the transaction did not emit a packet: nothing to compare (an empty, vacuous case)
+            return '(CName [] false false false)'
+        return '(CContract %s %s %s %s %s %s %s %s %s %s %s %s %s %s %s)' % (
+            cb(hx(ob.get('emitted'))), nat(ob['dec_class']), fvals(ob.get('dec')), nat(ob.get('reenc_class', 0)), cb(hx(ob.get('reenc'))),
+            cb(hx(ob.get('transfer_raw'))), nat(ob.get('transfer_dec_class', 0)), fvals(ob.get('transfer_dec')),
+            nat(ob.get('transfer_reenc_class', 0)), cb(hx(ob.get('transfer_reenc'))),
+            cb(hx(ob.get('call_raw'))), nat(ob.get('call_dec_class', 0)), fvals(ob.get('call_dec')),
+            nat(ob.get('call_reenc_class', 0)), cb(hx(ob.get('call_reenc'))))
     raise ValueError('unknown case kind %r' % k)
 
 
@@ -415,6 +426,14 @@ def coverage(run, results, mm, ff):
         elif k == 'commit':
             dist['commit_equal_packets' if sp['p'] == sp['q'] else 'commit_different_packets'] += 1
             nontrivial.add(json.dumps(sp, sort_keys=True))
+        elif k == 'contract':
+            dist['contract_tx_emitted_packet' if ob.get('class') == 0 else 'contract_tx_failed'] += 1
+            if ob.get('class') == 0:
+                if ob.get('transfer_raw'):
+                    dist['contract_with_transfer_data'] += 1
+                if ob.get('call_raw'):
+                    dist['contract_with_call_data'] += 1
+                nontrivial.add(json.dumps(sp, sort_keys=True))
         elif k == 'iter':
             hs = [h for c in sp.get('clients') or [] for h in c.get('heights') or []]
             dist['iter_heights_written'] += len(hs)
@@ -436,7 +455,8 @@ def coverage(run, results, mm, ff):
         rule='one evaluation = one case run on the real code and on the model inside Coq (abi: ABIPack+ABIDecode+re-pack of a generated '
              'value; abiraw: ABIDecode of a mutated/non-canonical input; key: one Go key builder call; parse: one Go key parser call; name: '
              'the three chain-name validators; commit: CommitPacket of two packets; iter: a real store populated through the keepers and '
-             'read by every iterator). Non-trivial = distinct spec with at least one non-zero field / key / written entry',
+             'read by every iterator; contract: a real cross-chain call through the endpoint/packet contracts, the emitted packet bytes decoded and '
+             're-encoded). Non-trivial = distinct spec with at least one non-zero field / key / written entry',
         distribution=dict(sorted(dist.items())), model_mismatches=len(mm), monitor_failures=len(ff), samples=samples))
 
 
